@@ -229,6 +229,50 @@ class Ctx:
         return 1 if new_violations else 0
 
 
+class Soft:
+    """View of a Ctx for a shape-recognising rule whose clause has been decided exactly by another rule (named in `by`):
+    an obligation the shape rule cannot discharge is then a note, not an accusation - the code merely left the shapes the
+    rule knows.  Successful obligations are counted as usual."""
+
+    def __init__(self, ctx, by):
+        object.__setattr__(self, "_c", ctx)
+        object.__setattr__(self, "_by", by)
+
+    def __getattr__(self, k):
+        return getattr(self._c, k)
+
+    def __setattr__(self, k, v):
+        setattr(self._c, k, v)
+
+    def _note(self, rid, instance, reason, where):
+        if rid not in self._c.rules:
+            self._c.rule(rid, "cross-check")
+        self._c.abstain(rid, "%s: shape not recognised (%s); this clause is decided exactly by %s" % (instance, str(reason)[:90], self._by), where)
+
+    def check(self, rid, cond, key, where, fn, instance, reason, expected=None, found=None, sample=None):
+        if cond:
+            self._c.ok(rid, sample)
+        else:
+            self._note(rid, instance, reason, where)
+        return cond
+
+    def fail(self, rid, key, where, fn, instance, reason, expected=None, found=None, path=None):
+        self._note(rid, instance, reason, where)
+
+    def anchor_missing(self, rid, what):
+        self._note(rid, what, "anchor not found", None)
+
+    def floor(self, rid, what, found, minimum):
+        if found >= minimum:
+            self._c.ok(rid)
+        else:
+            self._note(rid, what, "matched %d of %d sites" % (found, minimum), None)
+
+
+def soft_if(ctx, decided, by):
+    return Soft(ctx, by) if decided else ctx
+
+
 def _undecided_fold(found):
     """describe() of a fold that ended in 'top'/'loop' (undecidable for the folder), anywhere in `found`"""
     if isinstance(found, str):
